@@ -214,6 +214,35 @@ func TestVfC13Framing(t *testing.T) {
 		}
 		defer c.Close()
 		werr := make(chan error, 1)
+		if over > 0 && rapid.IntRange(0, 3).Draw(t, "halfClose") == 0 {
+			// The client sends its queries, closes its sending direction and keeps reading. What happens to the admitted
+			// queries then is not this check's business (the listener hangs up on EOF), but the over-limit ones were
+			// "answered REFUSED rather than dropped" the moment they were read: those frames must all arrive.
+			if err := c.WriteSegments(stream, cuts, pause); err != nil {
+				t.Fatalf("write: %v", err)
+			}
+			if cw, ok := c.C.(interface{ CloseWrite() error }); ok {
+				cw.CloseWrite()
+			}
+			got, _, _ := c.ReadFrames(k, 3*time.Second)
+			close(gate)
+			refusedSeen := 0
+			for _, f := range got {
+				if !f.Msg.Clean() {
+					t.Fatalf("a frame read after the half-close does not decode: torn output")
+				}
+				if f.Msg.Rcode() == 5 {
+					refusedSeen++
+				}
+			}
+			if refusedSeen < over {
+				t.Fatalf("listener=%s max_concurrent=%d: %d queries were over the limit (k=%d, upstream gated) but only %d REFUSED frames reached a client that half-closed after sending: over-limit queries were dropped", listener, mc, over, k, refusedSeen)
+			}
+			st.Case(vfkit.Fingerprint(stream, fmt.Sprint(cuts), listener, mc, "halfclose"), true, []string{"listener=" + listener, "limit-exceeded", "half-close"}, func() any {
+				return map[string]any{"listener": listener, "k": k, "max_concurrent": mc, "refused_after_half_close": refusedSeen}
+			})
+			return
+		}
 		go func() { werr <- c.WriteSegments(stream, cuts, pause) }()
 		var frames []*Resp
 		closed := false
